@@ -201,6 +201,37 @@ IDENT_ROLES = {
 }
 
 
+# statement forms: the spellings and layouts of the core statements that the skeleton generator's printer never produces
+# (it prints one statement per line, LF line ends, tabs, `return <value>`, no comments)
+_VOID = "f = fn(c: bool) {{\n\tprint \"in\"\n{BODY}\tprint \"rest\"\n}}\nf(true)\nf(false)\nprint \"end\"\n"
+STATEMENT_FORMS = {
+    "void-return-line-end": (_VOID.format(BODY="\tif c {\n\t\treturn\n\t}\n"), ["in", "in", "rest", "end"]),
+    "void-return-before-brace": (_VOID.format(BODY="\tif c { return }\n"), ["in", "in", "rest", "end"]),
+    "void-return-trailing-space": (_VOID.format(BODY="\tif c {\n\t\treturn \n\t}\n"), ["in", "in", "rest", "end"]),
+    "void-return-comment": (_VOID.format(BODY="\tif c {\n\t\treturn # early\n\t}\n"), ["in", "in", "rest", "end"]),
+    "void-return-in-while": (_VOID.format(BODY="\twhile true {\n\t\tif c {\n\t\t\treturn\n\t\t}\n\t\tbreak\n\t}\n"), ["in", "in", "rest", "end"]),
+    "void-return-in-from": (_VOID.format(BODY="\tfrom 0 to 3 {\n\t\tif c {\n\t\t\treturn\n\t\t}\n\t}\n"), ["in", "in", "rest", "end"]),
+    "void-return-in-else": (_VOID.format(BODY="\tif !c {\n\t\tprint \"no\"\n\t} else {\n\t\treturn\n\t}\n"), ["in", "in", "no", "rest", "end"]),
+    "void-return-last": ("f = fn() {{\n\tprint \"in\"\n\treturn\n}}\nf()\nprint \"end\"\n".format(), ["in", "end"]),
+    "void-method-return": ("class K {{\n\tconstructor(self) {{}}\n\tfn m(self, c: bool) {{\n\t\tif c {{\n\t\t\treturn\n\t\t}}\n\t\tprint \"m\"\n\t}}\n}}\n"
+                           "k = K()\nk.m(true)\nk.m(false)\n".format(), ["m"]),
+    "comments": ("a = 1 # c\n# full line\nprint a # t\n### block\nmore ###\nprint a + 1\nif a == 1 {{ # open\n\tprint \"y\" # in\n}} # close\n".format(), ["1", "2", "y"]),
+    "crlf": ("a = 1\r\nif a == 1 {{\r\n\tprint \"y\"\r\n}} else {{\r\n\tprint \"n\"\r\n}}\r\nwhile a < 3 {{\r\n\ta = a + 1\r\n}}\r\nfrom 0 to 2, i {{\r\n\tprint i\r\n}}\r\nprint a\r\n".format(),
+             ["y", "0", "1", "3"]),
+    "else-on-next-line": ("a = 1\nif a == 2 {{\n\tprint \"y\"\n}}\nelse if a == 3 {{\n\tprint \"z\"\n}}\nelse {{\n\tprint \"n\"\n}}\n".format(), ["n"]),
+    "empty-blocks": ("a = 1\nif a == 2 {{}}\nelse if a == 1 {{\n\tprint \"e\"\n}}\nwhile false {{}}\nfrom 0 to 2 {{}}\nf = fn() {{}}\nf()\nprint \"z\"\n".format(), ["e", "z"]),
+    "no-final-newline": ("print \"a\"\nprint \"b\"", ["a", "b"]),
+    "blank-and-indented-lines": ("\n\n   \n\t\nprint \"lead\"\n\n\n        print \"deep\"\n", ["lead", "deep"]),
+    "trailing-whitespace": ("a = 1   \nprint a\t\nif a == 1 {{ \n\tprint \"y\" \t\n}} \n".format(), ["1", "y"]),
+    "one-line-blocks": ("f = fn(a: int) -> int {{ return a * 2 }}\nprint f(2)\na = 1\nwhile a < 3 {{ a = a + 1 }}\nprint a\nif a == 3 {{ print \"t\" }} else {{ print \"e\" }}\n".format(), ["4", "3", "t"]),
+    "several-statements-per-line": ("a = 1 print a b = 2 print b\n", ["1", "2"]),
+    "from-forms": ("from 0 to 2 {{\n\tprint \"a\"\n}}\nfrom 0 through 2 step 2 {{\n\tprint \"b\"\n}}\nfrom 0 through 2 step 2, i {{\n\tprint i\n}}\nfrom 1 to 3, j {{\n\tprint j\n}}\n".format(),
+                   ["a", "a", "b", "b", "0", "2", "1", "2"]),
+    "assert-forms": ("a = 1\nassert a == 1\nassert(a == 1)\nassert !(a == 2)\nprint \"ok\"\n", ["ok"]),
+    "parenthesised-and-spaced-calls": ("f = fn(a: int, b: int) -> int {{\n\treturn a - b\n}}\nprint f( 5 , 2 )\nprint f(5,2)\nprint (f(5, 2))\nprint f(\n\t5,\n\t2\n)\n".format(), ["3", "3", "3", "3"]),
+}
+
+
 def ident_names():
     import os
     import re
@@ -227,7 +258,9 @@ class C01(Check):
             "p = 0, 1, 2 (and at module level / through one level of recursion), framed by probes that print a site id and all live "
             "counters.  Identifier spellings: 12 roles of an identifier (variable, function incl. call statements, parameter, loop counter, field / method, "
             "optional, const, list, first token after an expression line, unpack target, captured variable, argument / return) x every identifier-shaped word "
-            "of grammar.pest extended by a letter, underscore or digit; the program must behave as with a neutral name.  State = the reference interpreter's configuration; every program is one model trace replayed on the implementation.")
+            "of grammar.pest extended by a letter, underscore or digit; the program must behave as with a neutral name.  Statement forms: 21 spellings / layouts of the core statements the skeleton printer never "
+            "produces (value-less return in 9 positions, comments, CRLF, else on the next line, empty and one-line blocks, several statements per line, "
+            "blank / indented lines, trailing blanks, no final newline, all from-loop headers, assert and call spellings).  State = the reference interpreter's configuration; every program is one model trace replayed on the implementation.")
     assumptions = ["variable names are distinct per function (shadowing across functions belongs to C07)",
                    "any non-zero exit counts as the prescribed failure (its delivery is C17's business)",
                    "reference interpreter mcheck/lang/refint.py is the semantics (validated against the unchanged tree by this very check)"]
@@ -239,11 +272,13 @@ class C01(Check):
         if tier == "quick":
             return [("L0-depth<=2-default", L0(2)), ("L0b-depth<=2-module+recursion", L0b()),
                     ("Li-identifier-spellings", [("ident", r, n) for n in ident_names() for r in IDENT_ROLES]),
+                    ("Ls-statement-forms", [("form", k) for k in STATEMENT_FORMS]),
                     ("Lp-depth<=1-single-deviation-minimal-parentheses", L1(1, ("fn~min",))),
                     ("L2-spines<=4", L2(4)), ("L3q-pairs-of-compounds", L3q()),
                     ("L1-depth<=2-single-deviation(no call/store/defcall leaves)", L1(2, skip=("call", "store", "defcall"), core_conds_beyond_depth1=True))]
         return [("L0-depth<=3-default", L0(3)), ("L0b-depth<=2-module+recursion", L0b()),
                 ("Li-identifier-spellings", [("ident", r, n) for n in ident_names() for r in IDENT_ROLES]),
+                ("Ls-statement-forms", [("form", k) for k in STATEMENT_FORMS]),
                 ("L1-depth<=2-single-deviation", L1(2, ("fn", "module", "rec", "fn~min"))), ("L3-pairs", L3()),
                 ("L2-spines<=5", L2(5)), ("L6-long-sequences", L6_long()), ("L5a-depth<=2-double-deviation", L5_double(2)),
                 ("L5b-depth<=3-single-deviation", L1(3)), ("L4-depth<=4-default", L0(4))]
@@ -251,6 +286,8 @@ class C01(Check):
     def describe(self, case):
         if case[0] == "ident":
             return {"identifier": case[2], "role": case[1]}
+        if case[0] == "form":
+            return {"statement_form": case[1]}
         return {"variant": case[0], "shape": repr(case[1])}
 
     def run_ident(self, case):
@@ -270,7 +307,20 @@ class C01(Check):
                          "detail": {"files": {"x.ms": src}, "res": res.brief(), "expected_lines": exp}})
         return {"outcome": "ident-ok" + ("-DIFF" if viol else ""), "viol": viol, "nontrivial": True, "tags": ["ident", f"role-{role}"]}
 
+    def run_form(self, case):
+        src, exp = STATEMENT_FORMS[case[1]]
+        res = driver.run_ms(src)
+        lines = res.lines()
+        viol = []
+        if res.exit != 0 or lines != exp:
+            viol.append({"sig": {"kind": "statement-form", "form": case[1]},
+                         "what": f"statement form {case[1]}: expected {exp} exit 0; got {lines} exit {res.exit} {res.out[-200:] if res.exit else ''}{res.err[-150:]}",
+                         "detail": {"files": {"x.ms": src}, "res": res.brief(), "expected_lines": exp}})
+        return {"outcome": "form-ok" + ("-DIFF" if viol else ""), "viol": viol, "nontrivial": True, "tags": ["form"]}
+
     def run_case(self, case):
+        if case[0] == "form":
+            return self.run_form(case)
         if case[0] == "ident":
             return self.run_ident(case)
         variant, shape = case
@@ -292,7 +342,7 @@ class C01(Check):
     def finish(self, stats, tier):
         errs = []
         for t in ["store", "defcall", "break", "continue", "return", "fault-div", "fault-assert" if tier == "thorough" else "fault-div", "elif",
-                  "while", "from", "fn~min", "ident", "collide@nested", "collide@top", "anon@nested", "step", "step-expr", "step-call", "bounds-expr", "through", "module", "rec"]:
+                  "while", "from", "fn~min", "ident", "form", "collide@nested", "collide@top", "anon@nested", "step", "step-expr", "step-call", "bounds-expr", "through", "module", "rec"]:
             if not stats["tags"].get(t):
                 errs.append(f"vacuity: construct {t} never explored")
         ok = stats["evaluations"] - stats["outcomes"].get("skipped-step-limit", 0)
